@@ -123,6 +123,9 @@ int main(void){
 #ifdef P_C07
   chk_reparse_stable(&D);
 #endif
+#ifdef P_C05
+  chk_tostring_contract(&D);
+#endif
 cleanup:
   U(uriFreeUriMembersMm)(&D, &mm);
 done:
